@@ -47,7 +47,8 @@ where
             func,
             call_count,
             current_index: 0,
-            done: false,
+            // No replies expected (e.g. a chain of only oneway calls): nothing to wait for.
+            done: call_count == 0,
             _phantom: core::marker::PhantomData,
         }
     }
